@@ -11,6 +11,39 @@ SCHED_NOTE = ("Trusted: Lean kernel + propext/Quot.sound/Classical.choice; the h
               "Event resolution is outside this model (C03); floats of the implementation are compared, not proved.")
 
 CHECKS = {
+    "C16": dict(
+        text="Theorems for every message list / score of the stated class (no bound on lengths, deltas, chord sizes): the reader places "
+             "each note at the sum of ALL preceding delta times whatever is interleaved, velocity-0 note-on is a note-off, lengths are "
+             "sums of deltas between on and off; the writer's deltas sum to the call times, file length preserves trailing silence; "
+             "full write/read round trip (pitches, velocities, onsets, lengths, duration and gate for all but the last event).",
+        design="DESIGN.md §3 C16, notes/NOTES-C16.md",
+        note="Trusted: Lean kernel + standard axioms; model lean/IsobarV/Midi/Model.lean tied to isobar/io/midifile/{input,output}.py by "
+             "the correspondence (real Timeline + file on disk re-read by mido and by MidiFileInputDevice; foreign files built with "
+             "mido); mido's codecs and the SMF byte layout are outside the model; rests/silent voices in the returned sequences and "
+             "same-pitch overlaps in foreign files are correspondence-only.",
+        technique="Lean 4 list-function theorems (induction) + differential correspondence through real MIDI files"),
+    "C19": dict(
+        text="Theorems: MIDI channel-voice encode/decode round trip for all notes/values < 128, channels < 16, 14-bit bends, with int() "
+             "truncation; MIDI-file device messages; OSC 1.0 datagram parse(encode) for addresses and int/string args, the documented "
+             "/note, /control forms; MPE allocator invariants over ALL call histories (distinct sounding notes on distinct channels, a "
+             "channel is free iff unheld, note-on succeeds with < 15 held, channels recycled for any number of successive notes).",
+        design="DESIGN.md §3 C19, notes/NOTES-C19.md",
+        note="Trusted: Lean kernel + standard axioms; model lean/IsobarV/IO/Model.lean tied to isobar/io/{midi,osc,mpe,midifile}/output.py "
+             "by the correspondence (bytes captured on a fake mido port, real datagrams on a loopback UDP socket, saved MidiFile "
+             "re-parsed); mido, python-osc, the UDP stack, float32 rounding are outside the model (compared bit for bit, not proved); "
+             "pressing a still-held MPE key again is excluded by explicit hypothesis.",
+        technique="Lean 4 round-trip theorems + state-machine invariants by induction + differential correspondence on captured bytes"),
+    "C20": dict(
+        text="Theorems: parse(format(t)) = t for every nested tree of ints, negative ints, decimal floats and note names under ANY inner "
+             "whitespace layout (types preserved); a token string is accepted iff its brackets are balanced with every prefix depth >= 0; "
+             "foreign characters rejected; no internal error; an invalid string as event value stays a constant; a nested group "
+             "contributes one element per cycle of its parent (closed form of the output).",
+        design="DESIGN.md §3 C20, notes/NOTES-C20.md",
+        note="Trusted: Lean kernel + standard axioms; model lean/IsobarV/Notation/Model.lean (tokenizer for the exact regexes incl. "
+             "backtracking and \\b, CPython whitespace set) tied to isobar/notation/notation.py, Pattern.pattern, PSequence by the "
+             "correspondence (trees x layouts, bracket mutations, code-point sweep); Python's re engine is modelled, not verified; "
+             "non-ASCII word characters for \\b are outside the model.",
+        technique="Lean 4 round-trip / acceptance theorems by induction + mutation-based differential correspondence"),
     "C08": dict(
         text="Theorems for an ARBITRARY semantics of the operand patterns (any class, any nesting depth), any states, any number of "
              "steps: one step of a binary operator takes a value from a, then (only if a yielded) from b, and applies the operator; "
